@@ -225,6 +225,8 @@ func (c *c07Case) Run(ctx *core.Ctx) {
 				return fmt.Sprintf("l%d.min.html", i)
 			case c.Names == "subdir":
 				return fmt.Sprintf("v1.0/l%d", i)
+			case c.Names == "casetwin": // names that differ in the case of their letters only are different files
+				return []string{"", "Wrap", "wrap", "WRAP", "wRap", "wraP"}[i]
 			case c.Names == "updir": // a name may climb out of the directory of the file that names it
 				return fmt.Sprintf("../l%d", i)
 			}
@@ -455,7 +457,7 @@ func init() {
 		ID:        "C07",
 		Level:     "exploration",
 		CPUBudget: 20,
-		Rule: "all layout graphs over {page (root or pages/), layouts/a, layouts/b, layouts/base (absent or present), pages/a (relative twin), a base.vuego next to the page} where every file's layout key ranges over {none, a, b, base, self, missing} and the page's is given by front-matter or Fill, on engines built with NewFS(fs), New(WithFS(fs)) and NewFS(decoy, WithFS(fs)) (decoy differing in the presence of layouts/base.vuego); straight chains and cycles of chosen lengths incl. 98..101 (entered through a named layout and through the default layouts/base.vuego), cycles whose layouts use the content twice (the content doubles on every lap), the default layout itself rendered as a page, also with layouts named by numbers and booleans (YAML types the front-matter value), with dots and directories in the names, and with names that climb out of the naming file's directory (../l1 from a/b/c/page.vuego, ../l2 from there ..., with decoys where the name would lead without its dot-dot); every subset of {page fm, a fm, b fm, Fill} defining key k; every chain of 1..3 layouts where each link uses `content` in one of 7 ways (wraps it, passes it bare, hides it behind a false / true v-if, ignores it, uses it twice, prints it escaped) x page body {one element, nothing, two elements}. " +
+		Rule: "all layout graphs over {page (root or pages/), layouts/a, layouts/b, layouts/base (absent or present), pages/a (relative twin), a base.vuego next to the page} where every file's layout key ranges over {none, a, b, base, self, missing} and the page's is given by front-matter or Fill, on engines built with NewFS(fs), New(WithFS(fs)) and NewFS(decoy, WithFS(fs)) (decoy differing in the presence of layouts/base.vuego); straight chains and cycles of chosen lengths incl. 98..101 (entered through a named layout and through the default layouts/base.vuego), cycles whose layouts use the content twice (the content doubles on every lap), the default layout itself rendered as a page, also with layouts named by numbers and booleans (YAML types the front-matter value), with dots and directories in the names, with names that differ in the case of their letters only, and with names that climb out of the naming file's directory (../l1 from a/b/c/page.vuego, ../l2 from there ..., with decoys where the name would lead without its dot-dot); every subset of {page fm, a fm, b fm, Fill} defining key k; every chain of 1..3 layouts where each link uses `content` in one of 7 ways (wraps it, passes it bare, hides it behind a false / true v-if, ignores it, uses it twice, prints it escaped) x page body {one element, nothing, two elements}. " +
 			"oracle: reference resolver (relative-then-layouts/, default rule, limit 100) gives the nesting order with each marker once, or error with nothing written. non-trivial = all",
 		Bounds:      map[string]string{"quick": "all graphs over <=5 files; chains 1,2,3,5,98,99,100,101,150; cycles 1,2,3,7", "thorough": "same plus chains up to 300"},
 		Assumptions: []string{"a chain of exactly 100 links is accepted either way"},
@@ -514,6 +516,9 @@ func init() {
 			emit(&c07Case{Part: "chain", Len: 1, Names: "selfbase"})
 			for _, n := range []int{2, 3, 4} {
 				emit(&c07Case{Part: "chain", Len: n, Names: "updir"})
+			}
+			for _, n := range []int{3, 4, 5} {
+				emit(&c07Case{Part: "chain", Len: n, Names: "casetwin"})
 			}
 			for _, names := range []string{"num", "bool", "dotted", "dotted-html", "subdir"} {
 				for _, n := range []int{2, 3, 5} {
